@@ -45,6 +45,25 @@ ACCEPTED = {
 }
 
 
+# content conditions of accepted differences: the table entry applies only while the difference still has this shape
+ACCEPTED_IF = {
+    ("enter", "self._schedule_state_tasks:guards"):
+        lambda d: d.a is not None and d.a.guards == () and d.b is not None and all("P_states_to_enter" in g for g in d.b.guards),
+    ("enter", "self._schedule_state_tasks:only-b"):
+        lambda d: d.b is not None and any(g.startswith("+") and " in {" in g for g in d.b.guards),
+    ("actions", "hook:on_action_error:guards"):
+        lambda d: set(d.b.guards) - set(d.a.guards) <= {g for g in d.b.guards if "_is_async_callable" in g} and not (set(d.a.guards) - set(d.b.guards)),
+    ("actions", "return:guards"):
+        lambda d: set(d.b.guards) - set(d.a.guards) <= {g for g in d.b.guards if "_is_async_callable" in g} and not (set(d.a.guards) - set(d.b.guards)),
+    ("actions", "self._spawn_actor:guards"):
+        lambda d: all("startswith" in g for g in set(d.a.guards) ^ set(d.b.guards)),
+    ("done", "self._deliver:only-a"):
+        lambda d: d.a is not None and d.a.args[:1] == ("self",) and "DoneEvent" in d.a.args[1] and d.a.args[2:] == ("None", "None"),
+    ("done", "self.send:only-b"):
+        lambda d: d.b is not None and "DoneEvent" in d.b.args[0],
+}
+
+
 def _pairs(ctx):
     p = ctx.p
     B, I, S = "base_interpreter:BaseInterpreter.", "interpreter:Interpreter.", "sync_interpreter:SyncInterpreter."
@@ -69,11 +88,38 @@ def _pairs(ctx):
     ]
 
 
+def _auto_inline(ctx, view, f, given):
+    """Private helpers called from *f* that have exactly one call site in the view and a small body are
+    spliced into the caller's records (a behaviour-preserving 'extract method' must not look like a difference)."""
+    out = dict(given or {})
+    r = roles(ctx, view)
+    role_names = {x.name for x in r.processing.values()} | {"_execute_actions", "_execute_builtin_action", "_schedule_state_tasks",
+                                                            "_cancel_state_tasks", "_record_history", "_deliver", "_spawn_actor",
+                                                            "_notify_subscribers", "_complete", "_fail", "send"}
+    for s in ctx.r.callsites(f, view):
+        if s.recv != "self" or len(s.targets) != 1:
+            continue
+        t = s.targets[0]
+        if not t.name.startswith("_") or t.name.startswith("__") or t.name in role_names or t.name in out or t.cls is None:
+            continue
+        body = [x for x in t.node.body if not (isinstance(x, ast.Expr) and isinstance(x.value, ast.Constant))]
+        if len(body) > 8:
+            continue
+        other = "SyncInterpreter" if view == "Interpreter" else "Interpreter"
+        shared_with_twin = any(x.qualname == t.qualname for x in roles(ctx, other).funcs) and \
+            len(ctx.r.callers_of(t, other, roles(ctx, other).funcs)) > 0
+        if len(ctx.r.callers_of(t, view, r.funcs)) == 1 and not shared_with_twin:
+            out[t.name] = t
+    return out
+
+
 def run(ctx):
     c, p, res = ctx.c, ctx.p, ctx.r
     # ---- R1 twin agreement ----------------------------------------------------------------
     total = 0
     for name, fa, fs, ia, ib in _pairs(ctx):
+        ia = _auto_inline(ctx, "Interpreter", fa, ia)
+        ib = _auto_inline(ctx, "SyncInterpreter", fs, ib)
         A = extract(p, fa, RENAMES, ia)
         Bs = extract(p, fs, RENAMES, ib)
         total += len(A) + len(Bs)
@@ -91,7 +137,7 @@ def run(ctx):
             key = (name, construct)
             r = d.b or d.a
             line_node = type("L", (), {"lineno": r.line})()
-            if key in ACCEPTED:
+            if key in ACCEPTED and ACCEPTED_IF.get(key, lambda d_: True)(d):
                 c.ob("R1", True, fs, f"{name}:{construct}", f"accepted difference: {ACCEPTED[key]}", line_node, nontrivial=False)
                 continue
             c.ob("R1", False, fs, f"{name}:{construct}", _describe(name, fa, fs, d), line_node)
